@@ -468,6 +468,21 @@ theorem C05_stats_counter_roundtrip (lim n : Nat) (h : lim = 0 ∨ (natDec n).le
     convert lim .int (natDec n) = .int n := by
   simp [convert, pyIntWs_natDec lim n h]
 
+/-- **Signed values.**  Every integer in its canonical rendering (`str(i)`: a `-` and the digits, or the digits) comes back as that integer -/
+theorem C05_stats_signed_roundtrip (lim : Nat) (i : Int) (h : lim = 0 ∨ (natDec i.natAbs).length ≤ lim) :
+    convert lim .int (intDec i) = .int i := by
+  by_cases hi : i < 0
+  · rw [intDec_neg hi]
+    have hn : (-i).toNat = i.natAbs := by omega
+    rw [hn]
+    simp only [convert, pyIntWs_neg_natDec lim _ h]
+    congr 1; omega
+  · rw [intDec_nonneg (by omega)]
+    have hn : i.toNat = i.natAbs := by omega
+    rw [hn]
+    simp only [convert, pyIntWs_natDec lim _ h]
+    congr 1; omega
+
 /-- every 64-bit counter under the default limit -/
 theorem C05_stats_u64_counter (n : Nat) (hn : n < 2 ^ 64) : convert 4300 .int (natDec n) = .int n := by
   apply C05_stats_counter_roundtrip
@@ -545,6 +560,7 @@ theorem C05_stats_keys_preserved (lim : Nat) (d : List (Key.K × Bytes)) :
 example : converterOf (.bytes (ofString "pid")) = .int ∧ converterOf (.bytes (ofString "umask")) = .octal := by decide +kernel
 example : convert 4300 .octal (ofString "022") = .int 18 ∧ convert 4300 .int (ofString " 1_000\n") = .int 1000 ∧
     convert 4300 .boolInt (ofString "2") = .bool true ∧ convert 4300 .int (ofString "1.6.21") = .raw (ofString "1.6.21") := by decide +kernel
+example : convert 4300 .int (intDec (-42)) = .int (-42) := C05_stats_signed_roundtrip 4300 (-42) (by decide +kernel)
 example : pyIntWs 3 (ofString "1234") = none ∧ pyIntWs 0 (ofString "1234") = some 1234 ∧ pyOct (ofString "0o_17") = some 15 ∧
     pyOct (ofString "8") = none := by decide +kernel
 end Stats
